@@ -10,14 +10,15 @@ BinOps == {"add", "sub", "mul", "floordiv", "mod", "lt", "le", "eq", "ne", "gt",
 EOps == {Bin(op, a, C(2)) : op \in BinOps} \cup {Bin(op, C(2), a) : op \in BinOps} \cup {Bin(op, a, b) : op \in {"add", "floordiv", "mod", "lt"}}
 EBasic == { Bin("add", a, a),
             Bin("mul", a, Bin("add", a, b)),                    \* an argument that mentions a shared input before a further one
-            Idx(l, Bin("sub", Un("len", l), a)),                                   \* one input as root and as argument
+            Idx(l, Bin("sub", Un("len", l), a)),                \* one input as root and inside the argument
             Bin("mul", Bin("add", a, C(1)), b),                 \* derived expression with a reactive argument
             Bin("mul", Bin("add", a, C(1)), Bin("add", a, C(1))),   \* shared sub-expression
             Bin("add", p, a), Bin("sub", a, p),                 \* a Parameter as root / as argument
             Un("neg", a), Un("abs", Bin("sub", a, C(1))), Un("not", a), Un("bool", a), Un("len", l),
             Idx(l, a), Idx(l, C(0)), Bin("add", Idx(l, a), b),
             And(a, b), Or(a, b), And(a, C(7)),
-            And(a, Bin("floordiv", C(4), a)), Or(Bin("sub", a, C(1)), Bin("floordiv", C(4), Bin("sub", a, C(1)))),   \* short circuit InL(a, l), Pipe(a, b), Pipe(a, C(3)), PipeKw(a, b), PipeKw(a, p), Bin("add", PipeKw(a, b), C(1)), Map(l), Count(l, a), IsNone(a, FALSE), IsNone(Bin("add", a, b), TRUE),
+            And(a, Bin("floordiv", C(4), a)), Or(Bin("sub", a, C(1)), Bin("floordiv", C(4), Bin("sub", a, C(1)))),   \* short circuit
+            InL(a, l), Pipe(a, b), Pipe(a, C(3)), PipeKw(a, b), PipeKw(a, p), Bin("add", PipeKw(a, b), C(1)), Map(l), Count(l, a), IsNone(a, FALSE), IsNone(Bin("add", a, b), TRUE),
             DCode(d), Bin("add", DCode(d), a), Un("len", d),        \* a dictionary input whose keys get renamed
             Bin("floordiv", C(4), Bin("sub", a, C(1))),         \* raises at a = 1 and recovers
             BindF(a, p), Bin("add", BindF(a, p), C(1)), Bin("add", b, BindF(a, C(1))) }
